@@ -109,6 +109,7 @@ func (fr *frame) execBlock(b *ssa.BasicBlock, st *bstate) {
 			r := f.newAllocRef(fr.inLoop(b))
 			fr.vals[x] = Val{K: KRef, T: x.Type(), Tm: r}
 			st.heap = f.setGhostAt(st.heap, chanClosedGhost(x.Type()), sortBool, r, "false")
+			st.heap = f.setGhostAt(st.heap, chanCapGhost(x.Type()), sortInt, r, fr.val(x.Size).Tm)
 			if !f.dry {
 				f.localChans = append(f.localChans, &localChan{ref: r, t: x.Type()})
 			}
@@ -195,6 +196,10 @@ func (fr *frame) execBlock(b *ssa.BasicBlock, st *bstate) {
 		case *ssa.Go:
 			// the spawned function runs concurrently; its effects are not part of this function
 			f.exact["Go"]++
+			if f.sweep["nogo"] && !f.dry {
+				f.oblige(st, fmt.Sprintf("%s#no-goroutine-on-this-path", fnShortName(fr.fn)), "safety", f.sweepTags, "false",
+					"a goroutine is started on a path that must run synchronously", posStr(f.e.fset, x.Pos()))
+			}
 			fr.noteGo(x, st)
 		case *ssa.If, *ssa.Jump:
 			// handled by edge()
